@@ -415,4 +415,108 @@ theorem fillSymbol_below {sf : SymFile} {base instr : Nat} (hlt : instr < base) 
     fillSymbol sf base instr = .ok {} := by
   unfold fillSymbol; rw [if_pos hlt]
 
+/-! ### the inline loop -/
+
+theorem filter_length_mono {α : Type} (l : List α) (p q : α → Bool)
+    (hpq : ∀ x, p x = true → q x = true) : (l.filter p).length ≤ (l.filter q).length := by
+  induction l with
+  | nil => simp
+  | cons z rest ih =>
+    simp only [List.filter_cons]
+    cases hp : p z <;> cases hq : q z
+    · simpa using ih
+    · simp only [Bool.false_eq_true, if_false, if_true, List.length_cons]; omega
+    · have := hpq z hp; rw [hq] at this; cases this
+    · simp only [if_true, List.length_cons]; omega
+
+theorem filter_length_lt {α : Type} (l : List α) (p q : α → Bool) (hpq : ∀ x, p x = true → q x = true)
+    (x : α) (hx : x ∈ l) (hqx : q x = true) (hpx : p x = false) :
+    (l.filter p).length < (l.filter q).length := by
+  induction l with
+  | nil => cases hx
+  | cons y rest ih =>
+    have hle := filter_length_mono rest p q hpq
+    rcases List.mem_cons.mp hx with rfl | hx
+    · simp only [List.filter_cons, hqx, hpx, if_true, Bool.false_eq_true, if_false, List.length_cons]
+      omega
+    · have := ih hx
+      simp only [List.filter_cons]
+      cases hp : p y <;> cases hq : q y
+      · simpa using this
+      · simp only [Bool.false_eq_true, if_false, if_true, List.length_cons]; omega
+      · have := hpq y hp; rw [hq] at this; cases this
+      · simp only [if_true, List.length_cons]; omega
+
+/-- the loop returns as soon as the fuel exceeds the number of inlinees at the current depth or
+    deeper: every round that continues has found an inlinee of exactly the current depth -/
+theorem inlineLoop_ne_none (sf : SymFile) (f : BFunc) (addr : Nat) (fuel depth origin : Nat)
+    (h : (f.inls.filter fun x => decide (depth ≤ x.depth)).length < fuel) :
+    inlineLoop sf f addr fuel depth origin ≠ none := by
+  induction fuel generalizing depth origin with
+  | zero => omega
+  | succ fuel ih =>
+    simp only [inlineLoop]
+    split
+    · simp
+    · split
+      · simp
+      · simp
+      · rename_i x hx
+        obtain ⟨hm, hd, _⟩ := inlineeAt_sound hx
+        have hlt := filter_length_lt f.inls (fun y => decide (depth + 1 ≤ y.depth))
+          (fun y => decide (depth ≤ y.depth)) (by intro y hy; simp at hy ⊢; omega) x hm
+          (by simp; omega) (by simp; omega)
+        have := ih (depth + 1) x.origin (by omega)
+        split
+        · rename_i hn; exact absurd hn this
+        · simp
+        · simp
+
+/-- the inline frames for a chain of inlinees: `origin` names the function the chain starts in
+    (the origin of the inlinee one depth up), `xs` are the inlinees at the following depths. The
+    frame of each depth carries the name of *its* origin and the call site recorded in the *next*
+    deeper inlinee ("call sites shifted by one depth"); the last frame carries the innermost line
+    record. Frames whose origin id has no INLINE_ORIGIN record are skipped, as in the code. -/
+def chainFrames (sf : SymFile) (f : BFunc) (addr : Nat) : Nat → List Inl → List InlineFrame
+  | origin, [] => lastInline sf f addr origin
+  | origin, y :: rest =>
+    (match mapGet sf.origins origin with
+      | some name => [⟨name, mapGet sf.files y.callFile, some y.callLine⟩]
+      | none => []) ++ chainFrames sf f addr y.origin rest
+
+theorem inlineLoop_chain (sf : SymFile) (f : BFunc) (addr : Nat) (fuel depth origin : Nat)
+    (inl : List InlineFrame) (h : inlineLoop sf f addr fuel depth origin = some (.ok inl)) :
+    ∃ xs : List Inl,
+      (∀ k x, xs[k]? = some x → inlineeAt f.inls (depth + k) addr = .ok (some x)) ∧
+      inlineeAt f.inls (depth + xs.length) addr = .ok none ∧
+      inl = chainFrames sf f addr origin xs := by
+  induction fuel generalizing depth origin inl with
+  | zero => simp [inlineLoop] at h
+  | succ fuel ih =>
+    simp only [inlineLoop] at h
+    split at h
+    · cases h
+    · split at h
+      · cases h
+      · rename_i hn
+        simp only [Option.some.injEq, Outcome.ok.injEq] at h
+        exact ⟨[], by simp, by simpa using hn, by simp [chainFrames, h]⟩
+      · rename_i x hx
+        split at h
+        · cases h
+        · cases h
+        · rename_i rest hrest
+          simp only [Option.some.injEq, Outcome.ok.injEq] at h
+          obtain ⟨xs, h1, h2, h3⟩ := ih (depth + 1) x.origin rest hrest
+          refine ⟨x :: xs, ?_, ?_, ?_⟩
+          · intro k y hk
+            cases k with
+            | zero => simp at hk; subst hk; simpa using hx
+            | succ k =>
+              simp at hk
+              have := h1 k y hk
+              rw [show depth + (k + 1) = depth + 1 + k by omega]; exact this
+          · rw [show depth + (x :: xs).length = depth + 1 + xs.length by simp; omega]; exact h2
+          · simp only [chainFrames, ← h3]; exact h.symm
+
 end MdModel.Symbolize
